@@ -13,6 +13,10 @@ char *itoa(int num, char *buf, unsigned short int base);
 char *utoa(unsigned int num, char *buf, unsigned short int base);
 char *ltoa(long num, char *buf, unsigned short int base);
 char *ultoa(unsigned long num, char *buf, unsigned short int base);
+#include <stdarg.h>
+int fdputc(int c, int fd);
+int vfdprintf(int fd, const char *format, va_list args);
+int fdprintf(int fd, const char *format, ...);
 #ifdef __cplusplus
 }
 #endif
